@@ -2,6 +2,7 @@ package base
 
 import (
 	"slices"
+	"strings"
 )
 
 type Sig struct {
@@ -273,9 +274,9 @@ func MakeSignatureContent(
 				GetValueT(frame, class, methodT.GetMethodName(), darg, methodT.IsStatic)
 
 			// *a or **a
-			if darg[0] == '*' {
-				switch darg[1] {
-				case '*':
+			if strings.HasPrefix(darg, "*") {
+				switch strings.HasPrefix(darg, "**") {
+				case true:
 					dargT = MakeDoubleAsteriskKeyValue()
 
 				default:
